@@ -71,6 +71,10 @@ type WNet struct {
 	Outages      []WOutage `json:"outages,omitempty"`
 	RebindAtOrd  int       `json:"rebind_at,omitempty"` // from this client datagram on, the client's source address changes
 	Burst        int       `json:"burst,omitempty"`     // deliver up to n due events before waiting for quiescence
+	// lazy, packet-type targeted loss (search only; replay files carry the resulting drops explicitly): from AfterMS on, the
+	// first N client datagrams that contain an Initial packet vanish
+	DropInitials        int   `json:"drop_initials,omitempty"`
+	DropInitialsAfterMS int64 `json:"drop_initials_after_ms,omitempty"`
 }
 
 type WConfig struct {
@@ -158,11 +162,12 @@ var (
 )
 
 type World struct {
-	T     *testing.T
-	Seed  uint64
-	Net   *WNet
-	Res   *KResult
-	Start time.Time
+	initialsDropped int
+	T               *testing.T
+	Seed            uint64
+	Net             *WNet
+	Res             *KResult
+	Start           time.Time
 
 	mu        sync.Mutex
 	q         wHeap
@@ -189,6 +194,15 @@ func NewWorld(t *testing.T, seed uint64, n *WNet, res *KResult) *World {
 		drvDone: make(chan struct{}), nodes: map[string]simnet.PacketReceiver{}, explicit: map[[2]int][]WFault{}}
 	w.Tap = NewWiretap(func() int64 { return int64(time.Since(w.Start)) })
 	return w
+}
+
+func wHasInitial(rec *DgramRec) bool {
+	for _, p := range rec.Pkts {
+		if p.Type == TapInitial {
+			return true
+		}
+	}
+	return false
 }
 
 func (w *World) SetFaults(fs []WFault) {
@@ -273,6 +287,10 @@ func (w *World) SendPacket(p simnet.Packet) error {
 	var faults []WFault
 	if w.Net.Explicit {
 		faults = w.explicit[[2]int{dir, ord}]
+	} else if w.Net.DropInitials > w.initialsDropped && dir == 0 && now/1e6 >= w.Net.DropInitialsAfterMS && wHasInitial(rec) {
+		w.initialsDropped++
+		faults = []WFault{{Dir: dir, Ord: ord, Kind: "drop"}}
+		w.Fired = append(w.Fired, faults...)
 	} else if pinned := w.explicit[[2]int{dir, ord}]; len(pinned) > 0 {
 		// faults a generator pinned to a datagram on top of the random rates
 		faults = pinned
